@@ -44,6 +44,7 @@ type LockerIn struct {
 	PCTSpan  int          `json:"pctSpan,omitempty"`
 	// FineSites: statement-level scheduling points enabled in this run (fine-grained mode only).
 	FineSites []string `json:"fineSites,omitempty"`
+	FineHeld  bool     `json:"fineHeld,omitempty"` // see Config.FineHeld
 }
 
 type lockRec struct {
@@ -137,7 +138,7 @@ func (l *lockerSim) root() {
 	for _, f := range l.in.FineSites {
 		fineOn[f] = true
 	}
-	installFineHooks(l.sched, fineOn, func(k string) {
+	installFineHooks(l.sched, fineOn, l.in.FineHeld, func(k string) {
 		l.sched.mu.Lock()
 		l.counter[k]++
 		l.sched.mu.Unlock()
@@ -606,6 +607,7 @@ func GenLockerIn(t *rapid.T) *LockerIn {
 	}
 	if len(fineSiteList) > 0 {
 		in.FineSites = genFineSites(t, "command/lock.go")
+		in.FineHeld = len(in.FineSites) > 0 && rapid.Bool().Draw(t, "fineHeld")
 	}
 	nOff := rapid.IntRange(0, 2).Draw(t, "nOff")
 	for i := 0; i < nOff; i++ {
